@@ -75,12 +75,16 @@ def rm(path: Path) -> None:
 # --------------------------------------------------------------------------
 # the code under test must come from /repo/src
 # --------------------------------------------------------------------------
+REPO_SRC = os.path.realpath(os.environ.get("VERIF_REPO", "/repo")) + "/src/"
+VERIF_ROOT = os.path.dirname(os.path.dirname(os.path.dirname(os.path.realpath(__file__)))) + "/"
+
+
 def assert_repo_source() -> str:
     import zorg
 
     f = os.path.realpath(zorg.__file__)
-    if not f.startswith("/repo/src/"):
-        raise HarnessError(f"zorg imported from {f}, not /repo/src")
+    if not f.startswith(REPO_SRC):
+        raise HarnessError(f"zorg imported from {f}, not {REPO_SRC}")
     return f
 
 
